@@ -276,6 +276,8 @@ def bay_desc(rng, curved=None, mmax=6, nstiff=(0, 2), kinds=('blade1d', 'blade2d
             s.update(mf=int(rng.integers(3, 6)), nf=int(rng.integers(3, 6)))
         if kind == 't2d':
             s.update(mb=int(rng.integers(3, 6)), nb=int(rng.integers(3, 6)))
+        if rng.random() < 0.5:
+            s['mu'] = logu(rng, 1e2, 1e4)         # stiffener density different from the bay's
         st.append(s)
     d['stiffeners'] = st
     return d
@@ -311,7 +313,7 @@ def build_bay(d):
 CONN_KINDS = ('SSycte', 'SSxcte', 'BFycte', 'BFxcte', 'SB')
 
 
-def assembly_desc(rng, npan=None, mmax=5, kinds=CONN_KINDS, models=('plate', 'cpanel'), interior=True, shuffle=True):
+def assembly_desc(rng, npan=None, mmax=5, kinds=CONN_KINDS, models=('plate', 'cpanel'), interior=True, shuffle=True, offset_prob=0.0):
     """chain of panels joined by penalty connections; geometric precondition of a
     line connection (equal interface length) / surface connection (equal a, b) is built in."""
     if npan is None:
@@ -323,7 +325,7 @@ def assembly_desc(rng, npan=None, mmax=5, kinds=CONN_KINDS, models=('plate', 'cp
     conns = []
     for k in range(npan):
         d = panel_desc(rng, model=str(rng.choice(list(models))), mmax=mmax, sub=False, place=False,
-                       lam=laminate(rng, nmax=4, tscale=t / 3, offset_prob=0.0))
+                       lam=laminate(rng, nmax=4, tscale=t / 3, offset_prob=offset_prob))
         d['m'] = max(d['m'], 2); d['n'] = max(d['n'], 2)
         if k == 0:
             d['a'], d['b'] = a0, b0
